@@ -31,6 +31,10 @@ type Program struct {
 	GlobalsText string                 `json:"globalsText,omitempty"`
 	Data        map[string]interface{} `json:"data"`
 	Templates   []string               `json:"templates"` // qualified names the file defines
+	// Before, when set, is an EARLIER version of File (same name): a Generator is created on the
+	// registry compiled from it, asked for the file once, then the registry is updated in place
+	// with the compilation of File (what the WatchFiles recompiler does) and asked again.
+	Before *core.File `json:"before,omitempty"`
 	// JSOnly: the expected text is defined by the JavaScript library (a function or directive that
 	// the Go renderer lacks or spells differently); the Go rendering is not consulted.
 	JSOnly bool `json:"jsOnly,omitempty"`
@@ -973,8 +977,35 @@ var directiveUses = []string{"alone", "after-marker", "before-marker", "expr-arg
 // escaping library function although no directive is written.
 func BuildAutoescaped(id int) *Program {
 	ns := nsFor(id)
-	return &Program{ID: id, NS: ns, Pos: "autoescape-on", Class: "autoescape-on", Wrap: "top", S: "autoescape-on", Expect: "&lt;a&gt;|<a>",
-		File:      core.File{Name: ns + ".soy", Text: "{namespace " + ns + "}\n\n/** @param x */\n{template .main}{$x}|{$x |noAutoescape}{/template}\n"},
-		Data:      map[string]interface{}{"x": "<a>"},
-		Templates: []string{ns + ".main"}}
+	// one FILE mixes autoescaped prints with the directives that escape on their own or add markup
+	variants := []struct{ body, expect string }{
+		{"{$x}|{$x |noAutoescape}", "&lt;a&gt;|<a>"},
+		{"{$x}|{$x |escapeHtml}|{$x |noAutoescape}", "&lt;a&gt;|&lt;a&gt;|<a>"},
+		{"{$x |changeNewlineToBr}|{$x}", "&lt;a&gt;|&lt;a&gt;"},
+		{"{$x |insertWordBreaks:9}|{$x}|{$x |escapeHtml}", "&lt;a&gt;|&lt;a&gt;|&lt;a&gt;"},
+		{"{$x}|{$x |escapeHtml}|{$x |changeNewlineToBr}|{$x |insertWordBreaks:9}|{$x |escapeUri}|{$x |truncate:9}", "&lt;a&gt;|&lt;a&gt;|&lt;a&gt;|&lt;a&gt;|%3Ca%3E|&lt;a&gt;"},
+	}
+	v := variants[id%len(variants)]
+	text := "{namespace " + ns + "}\n\n/** @param x */\n{template .main}" + v.body + "{/template}\n"
+	tmpls := []string{ns + ".main"}
+	if id%2 == 0 {
+		// the directive in ANOTHER template of the same file
+		text += "\n/** @param x */\n{template .other autoescape=\"false\"}{$x |escapeHtml}{$x |changeNewlineToBr}{/template}\n"
+		tmpls = append(tmpls, ns+".other")
+	}
+	return &Program{ID: id, NS: ns, Pos: "autoescape-on", Class: "autoescape-on", Wrap: "top", S: "autoescape-on", Expect: v.expect,
+		File: core.File{Name: ns + ".soy", Text: text}, Data: map[string]interface{}{"x": "<a>"}, Templates: tmpls, JSOnly: true}
+}
+
+// BuildGeneratorReuse: the file exists in two versions under one name; the second has another
+// literal and one more template. The script asked for after the registry was updated in place
+// must be the second version's.
+func BuildGeneratorReuse(id int, s string) (*Program, bool) {
+	ns := nsFor(id)
+	name := ns + ".soy"
+	before := core.File{Name: name, Text: "{namespace " + ns + "}\n\n/** */\n{template .main autoescape=\"false\"}OLD-{'old literal'}{/template}\n"}
+	after := core.File{Name: name, Text: "{namespace " + ns + "}\n\n/** */\n{template .main autoescape=\"false\"}{" + qAuto(s, "") + "}{call .added/}{/template}\n" +
+		"\n/** */\n{template .added autoescape=\"false\"}+added{/template}\n"}
+	return &Program{ID: id, NS: ns, Pos: "generator-reuse", Class: "generator-reuse", Wrap: "top", S: s, Expect: s + "+added",
+		File: after, Before: &before, Data: map[string]interface{}{}, Templates: []string{ns + ".added", ns + ".main"}}, true
 }
